@@ -295,6 +295,9 @@ class Expr:
                 return (f"(negb {s})" if n == "notnull" else s), "bool"
             if n == "fillna" and len(args) == 1:
                 return f"(xfillna {self.num(recv)} {self.num(args[0])})", "num"
+            if n == "combine_first" and len(args) == 1 and not e.keywords:
+                # a.combine_first(b) on aligned arrays: a where a is not null, else b
+                return f"(xfillna {self.num(recv)} {self.num(args[0])})", "num"
             if n == "astype" and len(args) == 1:
                 return self.num(recv), "num"
             if n == "copy" and not args:
